@@ -164,10 +164,10 @@ func vDecimalValue(b []byte) int64 {
 		return 0
 	}
 	var n int64
-	first := vIteInt(vAnd(b[0] >= '0', b[0] <= '9'), int(b[0]-'0'), 0)
+	first := vIteInt(vAnd(b[0] >= '0', b[0] <= '9'), int(int64(b[0])-'0'), 0)
 	n = int64(first)
 	for _, c := range b[1:] {
-		n = n*10 + int64(c-'0')
+		n = n*10 + (int64(c) - '0')
 	}
 	if b[0] == '-' { // forks only when the first byte can be a minus sign
 		return -n
